@@ -5,7 +5,7 @@ CONSTANTS
   Targets = {1,2,3}
   AliasTargets = {1,3}
   MaxNum = 3
-  MaxOps = 8
+  MaxOps = 100
   Known = {"C20-1"}
 VIEW View
 INVARIANT Inv
